@@ -496,6 +496,123 @@ def settle_before_next_event(res: Result, engine, how, depth):
                       "%d steps)" % (seen, depth), {"engine": engine, "how": how, "chain": depth, "handled": seen})
 
 
+def raise_while_the_initial_configuration_settles(res: Result, engine, where, depth):
+    """start(): what an action raises while the initial configuration is still being entered or
+    settled (entry action, or the action of an eventless transition leaving the initial state) is
+    handled AFTER that, by the stable configuration - never in the middle of the step that raised it."""
+    seen = []
+
+    def mk(n):
+        return lambda i, c, e, a: seen.append(n)
+    rz = {"type": "xstate.raise", "params": {"event": "GO"}}
+    states = {"ready": {"entry": ["enter@ready"], "on": {"GO": {"target": "running", "actions": ["go@ready"]}}},
+              "running": {"entry": ["enter@running"]}}
+    for k in range(depth):
+        nxt = "t%d" % (k + 1) if k + 1 < depth else "ready"
+        states["t%d" % k] = {"always": [{"target": nxt, "actions": ["hop%d" % k]}],
+                             "on": {"GO": {"target": "running", "actions": ["go@transient"]}}}
+    if where == "always-action":
+        states["t0"]["always"][0]["actions"] = [rz, "hop0"]
+    elif where == "last-always-action":
+        states["t%d" % (depth - 1)]["always"][0]["actions"] = ["hop%d" % (depth - 1), rz, "after-raise"]
+    else:
+        states["t0"]["entry"] = [rz, "enter@t0"]
+    names = ["enter@ready", "go@ready", "enter@running", "go@transient", "enter@t0", "after-raise"] + [
+        "hop%d" % k for k in range(depth)]
+    machine = create_machine({"id": "m", "initial": "t0", "states": states},
+                             logic=MachineLogic(actions={n: mk(n) for n in names}))
+    if engine == "sync":
+        it = SyncInterpreter(machine).start()
+        cfg = sorted(config_of(it))
+        it.stop()
+    else:
+        out = {}
+
+        async def body():
+            it = Interpreter(machine)
+            await it.start()
+            await drain(it, max_yields=300)
+            out["cfg"] = sorted(config_of(it))
+            await it.stop()
+        run_virtual(body)
+        cfg = out.get("cfg")
+    res.evaluations += 1
+    res.count("raise-during-initial-settle.scenarios." + engine)
+    res.hashes.add(h(["initial-settle", engine, where, depth]))
+    i_go = seen.index("go@ready") if "go@ready" in seen else None
+    ok = (cfg == ["m", "m.running"] and "go@transient" not in seen and i_go is not None
+          and seen.index("enter@ready") < i_go
+          and all(seen.index("hop%d" % k) < i_go for k in range(depth))
+          and ("after-raise" not in names or "after-raise" not in seen or seen.index("after-raise") < i_go)
+          and seen[-1] == "enter@running")
+    if not ok:
+        res.violation("C04:raised-event-handled-inside-the-initial-step/%s/%s" % (where, engine),
+                      "GO was raised while the initial configuration settled (%d eventless steps); actions "
+                      "ran as %s, final configuration %s" % (depth, seen, cfg),
+                      {"engine": engine, "where": where, "chain": depth, "actions": seen, "configuration": cfg})
+
+
+def long_legal_chain_with_eventless_hops(res: Result, engine, N, hops, per_hop):
+    """A self-raised chain that stays BELOW its limit, every link followed by a short eventless
+    chain: each of those is settled in full - the configuration between two links, and at the end,
+    is a stable one (the eventless budget belongs to one settle, not to the whole chain)."""
+    st = {"n": 0, "transient": []}
+
+    def inc(i, c, e, a):
+        c["n"] += 1
+    ws = {}
+    for k in range(per_hop):
+        ws["w%d" % k] = {"always": [{"target": "w%d" % (k + 1) if k + 1 < per_hop else "emit"}],
+                         "on": {"STEP": {"actions": ["step@transient"]}, "P": {"actions": ["probe@transient"]}}}
+    ws["check"] = {"always": [{"guard": "more", "target": "w0"}, {"target": "#m.finished"}]}
+    ws["emit"] = {"entry": ["inc", {"type": "xstate.raise", "params": {"event": "STEP"}}],
+                  "on": {"STEP": "check"}}
+    cfg = {"id": "m", "initial": "idle", "maxIterations": N, "context": {"n": 0, "L": hops},
+           "states": {"idle": {"on": {"GO": "loop"}},
+                      "loop": {"initial": "check", "states": ws},
+                      "finished": {"on": {"P": {"actions": ["probe@finished"]}}}}}
+    seen = []
+    machine = create_machine(cfg, logic=MachineLogic(
+        actions={"inc": inc, "step@transient": lambda i, c, e, a: seen.append("step@transient"),
+                 "probe@transient": lambda i, c, e, a: seen.append("probe@transient"),
+                 "probe@finished": lambda i, c, e, a: seen.append("probe@finished")},
+        guards={"more": lambda c, e: c["n"] < c["L"]}))
+    out = {}
+    if engine == "sync":
+        it = SyncInterpreter(machine).start()
+        try:
+            it.send("GO")
+            it.send("P")
+        except Exception as x:  # noqa: BLE001
+            out["exc"] = repr(x)
+        out["cfg"], out["n"], out["status"] = sorted(config_of(it)), it.context.get("n"), it.status
+        it.stop()
+    else:
+        async def body():
+            it = Interpreter(machine)
+            await it.start()
+            try:
+                await it.send("GO")
+                await drain(it, max_yields=2000 + 50 * hops * (per_hop + 2))
+                await it.send("P")
+                await drain(it, max_yields=2000)
+            except Exception as x:  # noqa: BLE001
+                out["exc"] = repr(x)
+            out["cfg"], out["n"], out["status"] = sorted(config_of(it)), it.context.get("n"), it.status
+            await it.stop()
+        run_virtual(body)
+    res.evaluations += 1
+    res.count("long-legal-chain.scenarios." + engine)
+    res.hashes.add(h(["legal-chain", engine, N, hops, per_hop]))
+    if out.get("cfg") != ["m", "m.finished"] or out.get("n") != hops or seen != ["probe@finished"] or "exc" in out:
+        res.violation("C04:legal-chain-left-in-a-transient-configuration/%s" % engine,
+                      "maxIterations %d, %d self-raised links (below the limit) each followed by %d eventless "
+                      "steps: ended in %s with n=%s, status %s, probes %s %s" % (
+                          N, hops, per_hop + 1, out.get("cfg"), out.get("n"), out.get("status"), seen,
+                          out.get("exc", "")),
+                      {"engine": engine, "config": cfg, "observed": out, "handled": seen})
+
+
 def run_chunk(spec):
     observe.quiet_logs()
     res = Result()
@@ -527,13 +644,27 @@ def run_chunk(spec):
                     wd.arm("settle %s %s" % (engine, how))
                     settle_before_next_event(res, engine, how, depth)
                 k += 1
+    for engine in ("sync", "async"):
+        for where in ("always-action", "last-always-action", "entry-action"):
+            for depth in (1, 3):
+                if k % NCHUNKS == ci:
+                    wd.arm("initial settle %s %s" % (engine, where))
+                    raise_while_the_initial_configuration_settles(res, engine, where, depth)
+                k += 1
+        for (N, hops, per_hop) in ((12, 9, 1), (12, 10, 3), (30, 25, 2), (1000, 700, 1)):
+            if k % NCHUNKS == ci:
+                wd.arm("legal chain %s %d" % (engine, N))
+                long_legal_chain_with_eventless_hops(res, engine, N, hops, per_hop)
+            k += 1
     wd.disarm()
     return res.to_json()
 
 
 def quota(counters, tier):
     out = []
-    for k in ("histories.async", "histories.sync", "async.sends-mid-macrostep", "async.bursts",
+    for k in ("histories.async", "histories.sync", "raise-during-initial-settle.scenarios.sync",
+              "raise-during-initial-settle.scenarios.async", "long-legal-chain.scenarios.sync",
+              "long-legal-chain.scenarios.async", "async.sends-mid-macrostep", "async.bursts",
               "sync.injection.sleeps", "sync.drains-by-engine-threads", "sync.producer.after",
               "sync.producer.send", "sync.producer.MainThread", "contiguity.checked",
               "sync.small-bound-runs", "async.starts-checked", "faulty-event.scenarios.sync",
